@@ -99,7 +99,7 @@ class C12(PipelineCheck):
     MAX_DEPTH = (1, 5)
     ROUNDS = (0, 1, 1, 2)
     TRANSLATE = False
-    tiers = {'quick': {'runs': 150, 'wall_s': 70, 'run_timeout_s': 300},
+    tiers = {'quick': {'runs': 450, 'wall_s': 80, 'run_timeout_s': 300},
              'thorough': {'runs': 2500, 'wall_s': 1100, 'run_timeout_s': 900}}
 
     def observer(self, sim, plan):
@@ -151,7 +151,19 @@ class C12(PipelineCheck):
             # (c) sentinel taint
             sites = self.taint_sites(program)
             r.shuffle(sites)
-            for (path, attr, idx, kind, expect) in sites[:14]:
+            # stratified: one site of every (annotation kind, node type, scope) class first,
+            # so that rare classes (an omitted return type of a NESTED function ...) are met
+            groups = {}
+            for st_ in sites:
+                sc_ = 'global' if st_[0].count('/') <= 1 else (
+                    'member' if re.match(r'^global/[^/]+/functions\[\d+\]$', st_[0]) else 'local')
+                groups.setdefault((st_[3], st_[1], sc_), []).append(st_)
+            picked = []
+            while len(picked) < 18 and any(groups.values()):
+                for key_ in sorted(groups):
+                    if groups[key_] and len(picked) < 18:
+                        picked.append(groups[key_].pop())
+            for (path, attr, idx, kind, expect) in picked:
                 p2 = pickle.loads(blob)
                 node = self.find(p2, path)
                 if node is None:
